@@ -394,11 +394,37 @@ Proof.
   rewrite PE in X. cbn [mk_tgt t_path t_base t_comps t_trail app] in X. rewrite L, TR in X. discriminate.
 Qed.
 
+Lemma split_aux_in c : forall s cur piece x, In piece (split_aux c cur s) -> In x piece -> In x cur \/ In x s.
+Proof.
+  induction s as [|y s IH]; intros cur piece x IP IX; cbn [split_aux] in IP.
+  - destruct IP as [<-|[]]. left. apply in_rev. exact IX.
+  - destruct (y =? c).
+    + destruct IP as [<-|IP]; [left; apply in_rev; exact IX|].
+      destruct (IH [] piece x IP IX) as [[]|I]. right. right. exact I.
+    + destruct (IH (y :: cur) piece x IP IX) as [[->|I]|I]; [right; left; reflexivity|left; exact I|right; right; exact I].
+Qed.
+
+Lemma removelast_incl {A} (l : list A) x : In x (removelast l) -> In x l.
+Proof.
+  induction l as [|y l IH]; [intros []|]. destruct l as [|z r]; [intros []|].
+  cbn [removelast]. intros [->|I]; [left; reflexivity|right; apply IH; exact I].
+Qed.
+
+Lemma parent_no_nul raw : has_nul raw = false -> comps_nul (removelast (comps raw)) = false.
+Proof.
+  intros NU. destruct (comps_nul (removelast (comps raw))) eqn:E; [|reflexivity]. exfalso. unfold comps_nul in E.
+  apply existsb_exists in E. destruct E as [c [I H]]. apply existsb_exists in H. destruct H as [z [IZ HZ]].
+  apply N.eqb_eq in HZ. subst z. apply removelast_incl in I. unfold comps in I. apply filter_In in I. destruct I as [I _].
+  destruct (split_aux_in 47 raw [] c 0 I IZ) as [[]|J].
+  unfold has_nul in NU. assert (existsb (N.eqb 0) raw = true) by (apply existsb_exists; exists 0; split; [exact J|reflexivity]).
+  congruence.
+Qed.
+
 Lemma mk_parent_dirs_spec f raw f' r : fs_wf f -> mk_parent_dirs f (mk_tgt [] raw) = (f', r) ->
   fs_wf f' /\ ext f f'.
 Proof.
   intros W. unfold mk_parent_dirs. cbn [mk_tgt t_nul t_base t_comps].
-  destruct (has_nul raw); [intros H; inversion H; subst; split; [exact W|apply ext_refl]|].
+  destruct (comps_nul (removelast (comps raw))); [intros H; inversion H; subst; split; [exact W|apply ext_refl]|].
   intros H. apply mkdir_all_spec in H; [|exact W|reflexivity|].
   - destruct H as [A [B _]]. split; assumption.
   - intros x s E. symmetry in E. apply app_eq_nil in E. destruct E; subst. congruence.
@@ -407,7 +433,8 @@ Qed.
 Lemma mk_parent_dirs_noop f raw : has_nul raw = false -> names_ok (comps raw) -> pdirs f [] (comps raw) ->
   mk_parent_dirs f (mk_tgt [] raw) = (f, None).
 Proof.
-  intros NU NM PD. unfold mk_parent_dirs. cbn [mk_tgt t_nul t_base t_comps]. rewrite NU.
+  intros NU NM PD. unfold mk_parent_dirs. cbn [mk_tgt t_nul t_base t_comps].
+  rewrite (parent_no_nul raw NU).
   destruct (comps raw) as [|c k] eqn:K; [reflexivity|]. rewrite <- K in *.
   assert (KN : comps raw <> []) by (rewrite K; discriminate).
   destruct (removelast_split _ KN) as [y Ey].
